@@ -205,16 +205,20 @@ class ByCountProfilerMixin:
         async def wrapper(*args, **kwds):
             g = func(*args, **kwds)
             # Async generators are started by `.asend(None)`
-            input_ = None
+            input_ = exc = None
             while True:
                 self.enable_by_count()
                 try:
-                    item = (await g.asend(input_))
+                    item = (await g.asend(input_)) if exc is None else (await g.athrow(exc))
                 except StopAsyncIteration:
                     return
                 finally:
+                    exc = None
                     self.disable_by_count()
-                input_ = (yield item)
+                try:
+                    input_ = (yield item)
+                except BaseException as e:  # athrow()/aclose(): forward to `g`
+                    exc = e
 
         return self._mark_wrapped(wrapper)
 
@@ -249,16 +253,20 @@ class ByCountProfilerMixin:
         def wrapper(*args, **kwds):
             g = func(*args, **kwds)
             # Generators are started by `.send(None)`
-            input_ = None
+            input_ = exc = None
             while True:
                 self.enable_by_count()
                 try:
-                    item = g.send(input_)
+                    item = g.send(input_) if exc is None else g.throw(exc)
                 except StopIteration as e:
                     return e.value
                 finally:
+                    exc = None
                     self.disable_by_count()
-                input_ = (yield item)
+                try:
+                    input_ = (yield item)
+                except BaseException as e:  # throw()/close(): forward to `g`
+                    exc = e
 
         return self._mark_wrapped(wrapper)
 
